@@ -438,7 +438,7 @@ CLAIMS["C05"]["text"] += (" Two cases in seven run a swarm that lacks the TCP or
 CLAIMS["C03"]["text"] += (" A third of the sequential histories give the manager the library's own fixed limiter (NewFixedLimiter over a limit configuration built from the drawn table, with explicit per-protocol and per-service per-peer overrides) instead of the harness' table-driven Limiter, so the stock limit lookup is part of what is checked.")
 
 CLAIMS["C04"]["text"] += (" The host layer also opens bare swarm streams that the opener ends (half-close then close, or close at once) before sending a single byte of protocol negotiation while the connection stays up: the accepting host must dispose of the inbound stream, which must be gone from the connection and from every scope at the mid-life and final audits.")
-CLAIMS["C04"]["note"] += (" The QUIC transport's own listener (gating after the QUIC handshake, seeded change C04-N) and its hole-punch dial path (C04-K) are not driven by any C04 layer.")
+CLAIMS["C04"]["note"] += (" The QUIC transport's hole-punch dial path (seeded change C04-K) is not driven by any C04 layer.")
 
 CLAIMS["C01"]["text"] += (" Wire edits include frame/record INSERTION by the man in the middle: 1-3 attacker frames in front of every Noise XX message / TLS 1.3 handshake record and behind the last one, of every length class including the empty frame (Noise 00 00, TLS zero-length record), 1-2 bytes, the displaced frame's length +-1 and the framing maximum, enumerated per position and sampled; the receiver of such extended handshake data must not complete.")
 CLAIMS["C01"]["note"] += (" Inserted TLS ChangeCipherSpec/alert records (outside the TLS 1.3 transcript) and frames behind a side's last handshake frame are judged by the identity + no-garbage oracles only.")
@@ -447,3 +447,5 @@ CLAIMS["C14"]["text"] += (" Overlapping trim calls (TrimOpenConns/ForceTrim in e
 CLAIMS["C14"]["note"] += (" The overlap window is pinned by harness callbacks plus a bounded number of scheduler yields; closes are attributed to a call by goroutine id (trims close on the caller's goroutine); a regular trim that joins a running trim and closes nothing itself is accepted.")
 CLAIMS["C18"]["text"] += (" TestTransportListenHistory also obtains the running transport's advertised address through Transport.AddCertHashes(bare /webtransport address) - the path used for observed, NAT-mapped and user-provided addresses - at every sampled instant, the first call before the first Listen, at the first listener, or after k rollovers; the address is held to the listener's own rules (it contains the hash of the certificate served now, and every address so obtained in the current or previous period verifies the certificate served now).")
 CLAIMS["C18"]["note"] += (" Only the transport-level AddCertHashes is exercised; the swarm and basic-host callers above it are not run.")
+
+CLAIMS["C04"]["text"] += (" A QUIC listener layer (TestQUICListenerLayer) runs the real QUIC transport over simnet in virtual time: a listener whose gater rejects every k-th InterceptAccept / InterceptSecured call after the QUIC handshake and whose resource manager refuses the k-th OpenConnection / SetPeer, a consumer that accepts some connections and closes them at once or late, 1-4 dialling transports that connect, open a stream or not and hang up or stay; after listener, connections and transports are closed both sides' real managers must read zero everywhere.")
